@@ -22,6 +22,11 @@ out["P2"] = [list(p) for p in c.ctrlptsw]
 out["binom"] = [linalg.binomial_coefficient(n, k) for n in range(1, 8) for k in range(n + 1)]
 out["inv"] = [linalg.matrix_inverse([[0.0, 1.0], [1.0, 0.0]]), linalg.matrix_inverse([[2.0, 1.0], [1.0, 3.0]]), linalg.matrix_identity(2)]
 out["elev"] = helpers.degree_elevation(3, [[0.0, 0.0], [1.0, 2.0], [3.0, 2.0], [4.0, 0.0]], num=2)
+from geomdl import knotvector
+g1 = knotvector.generate(3, 8); g1[5] = 99.0; g1.append(5.0)
+_ = knotvector.generate(2, 6)
+out["generate_again"] = knotvector.generate(3, 8)
+out["generate_ok"] = knotvector.check(3, out["generate_again"], 8)
 print(json.dumps(out))
 '''
 
@@ -244,6 +249,9 @@ def check_cache_sizes(ctx):
             ctx.violate("GEOMDL_CACHE_SIZE", tg + ["raises"], {"GEOMDL_CACHE_SIZE": val}, {"stderr": p.stderr.strip().split("\n")[-1][:300]})
             continue
         outs[val] = json.loads(p.stdout.strip().split("\n")[-1])
+    for val, o in outs.items():
+        if o.get("generate_ok") is not True or len(o.get("generate_again", [])) != 12:
+            ctx.violate("knotvector.generate", ["cache_size=" + str(val), "second_call"], {"GEOMDL_CACHE_SIZE": val}, {"got": o.get("generate_again")})
     if None in outs:
         for val, o in outs.items():
             if val is not None and not close_seq(_flat(o), _flat(outs[None]), 1e-12):
